@@ -26,10 +26,22 @@ type store struct {
 	failing map[desync.ChunkID]bool
 	// failFirst: the next k requests for the ID fail, later ones succeed (a transient failure while readers overlap)
 	failFirst map[desync.ChunkID]int
+	nfail     int
 	hook      func(string, ...interface{})
 }
 
 var errStore = errors.New("injected store failure")
+
+// a store failure whose chain contains io.EOF (a connection closed without a response looks like this): still a failure
+var errStoreEOF = fmt.Errorf("injected store failure: connection closed: %w", io.EOF)
+
+func (s *store) failure() error {
+	s.nfail++
+	if s.nfail%2 == 0 {
+		return errStoreEOF
+	}
+	return errStore
+}
 
 func (s *store) GetChunk(id desync.ChunkID) (*desync.Chunk, error) {
 	if s.hook != nil {
@@ -39,11 +51,11 @@ func (s *store) GetChunk(id desync.ChunkID) (*desync.Chunk, error) {
 	s.mu.Lock()
 	defer s.mu.Unlock()
 	if s.failing[id] {
-		return nil, errStore
+		return nil, s.failure()
 	}
 	if s.failFirst[id] > 0 {
 		s.failFirst[id]--
-		return nil, errStore
+		return nil, s.failure()
 	}
 	b, ok := s.chunks[id]
 	if !ok {
